@@ -2,14 +2,16 @@
 # tools/try_patch.sh <patch.diff> <tier> <PROP> [PROP...] — apply a seeded change to /repo, run the checks, undo it.
 # Prints one line per property: PROP exit=<code> first violation kinds.
 patch="$1"; tier="$2"; shift 2
-cd /repo || exit 2
-if ! git diff --quiet; then echo "/repo working tree is dirty" >&2; exit 2; fi
+ROOT=$(cd "$(dirname "$0")/.." && pwd)
+REPO="${VERIF_REPO:-/repo}"
+cd "$REPO" || exit 2
+if ! git diff --quiet; then echo "$REPO working tree is dirty" >&2; exit 2; fi
 if ! git apply --3way "$patch" 2>/dev/null && ! git apply "$patch"; then echo "patch does not apply" >&2; git checkout -- . ; exit 2; fi
 git reset -q 2>/dev/null
 for p in "$@"; do
-  out=$(cd /verif && ./check "$p" "$tier" 2>/tmp/try_patch.err); code=$?
-  kinds=$(grep -o "violation \[[a-z0-9-]*\]" /tmp/try_patch.err | sort | uniq -c | sort -rn | head -4 | tr '\n' ';')
-  echo "$p exit=$code $(echo "$out" | grep -c '^VIOLATION') VIOLATION lines; $kinds $(grep -m1 'MACHINERY' /tmp/try_patch.err)"
+  out=$(cd "$ROOT" && ./check "$p" "$tier" 2>"$ROOT/build/try_patch.err"); code=$?
+  kinds=$(grep -o "violation \[[a-z0-9-]*\]" "$ROOT/build/try_patch.err" | sort | uniq -c | sort -rn | head -4 | tr '\n' ';')
+  echo "$p exit=$code $(echo "$out" | grep -c '^VIOLATION') VIOLATION lines; $kinds $(grep -m1 'MACHINERY' "$ROOT/build/try_patch.err")"
 done
-git -C /repo checkout -- . ; git -C /repo status --short | head -3
-rm -f /tmp/try_patch.err
+git -C "$REPO" checkout -- . ; git -C "$REPO" status --short | head -3
+rm -f "$ROOT/build/try_patch.err"
